@@ -77,7 +77,7 @@ pvars == <<gen, idcase, inCtl, alias, shut, up, pdesc, pcfg, pacc, cache, q, rm,
 None == <<>>
 Some(x) == <<x>>
 Recs == [a : Addrs, p : Ports, c : CfgNums, s : StateNums]
-O(k, x, y) == [k |-> k, x |-> x, y |-> y]
+O(k, x, y) == <<k, x, y>>
 If(c, S) == IF c THEN S ELSE {}
 
 Has(qq, kind) == \E i \in 1..Len(qq) : qq[i].k = kind
@@ -266,6 +266,16 @@ Next == \/ \E r \in Recs : Announce(r)
         \/ \E k \in AnswerKinds : Answer(k)
         \/ \E v \in DbVers : DbChange(v)
 Spec == Init /\ [][Next]_vars
+\* for -simulate: one random record per step instead of one successor per record (otherwise announcements
+\* crowd out every other step)
+SimAnnounce == \E r \in {RandomElement({x \in Recs : honest => x.c = accv})} : Announce(r)
+SimDb == \E v \in {RandomElement(DbVers)} : DbChange(v)
+SimNext == \/ SimAnnounce
+           \/ AnnouncePtr \/ Remove \/ TimerFire \/ ResolveDone
+           \/ Load \/ UserList \/ UserRemove \/ UserShutdown
+           \/ \E k \in AnswerKinds : Answer(k)
+           \/ SimDb
+SimSpec == Init /\ [][SimNext]_vars
 
 QBound == Len(q) <= MaxQ
 
@@ -300,14 +310,14 @@ LabelNeverNewerThanData == honest => /\ (gen > 0 /\ pacc # 0) => pacc >= pcfg
 SeenLatestHoldsLatest == (honest /\ gen > 0 /\ ~shut /\ ~stale /\ pdesc # None /\ ~Has(q, "cfg") /\ pdesc[1].c = accv)
                             => (pacc = accv /\ cache = Some([c |-> accv, a |-> accv]))
 \* P6  listeners hear about a configuration change with the number the pairing now holds
-NotifiedWithNewNumber == \A o \in out : o.k = "notify" => o.x = pcfg
+NotifiedWithNewNumber == \A o \in out : o[1] = "notify" => o[2] = pcfg
 \* P7  after shutdown nothing happens to the pairing any more: no request, no connection attempt, no
 \*     notification, no cache write (the entry may only be deleted by remove_pairing)
 NoWorkAfterShutdown ==
     [][(shut /\ gen' = gen) =>
           /\ pdesc' = pdesc /\ pcfg' = pcfg /\ pacc' = pacc /\ q' = <<>> /\ shut' /\ ~up'
           /\ cache' \in {cache, None}
-          /\ \A o \in out' : o.k \in {"ret_list", "ret_rm", "resolve"}]_vars
+          /\ \A o \in out' : o[1] \in {"ret_list", "ret_rm", "resolve"}]_vars
 \* P8  remove_pairing, however it ends, leaves no trace of the pairing: not in the controllers (so it gets
 \*     no more updates), no alias, no cache entry, nothing in flight, shut down
 RemovedMeansGone == rm = "done" => (~inCtl /\ ~alias /\ cache = None /\ q = <<>> /\ shut)
@@ -315,5 +325,5 @@ RemovedMeansGone == rm = "done" => (~inCtl /\ ~alias /\ cache = None /\ q = <<>>
 \*     stops getting updates that might trigger a disconnected event poll")
 NoUpdatesWhileRemoving == rm # "no" => ~inCtl
 \* P9  every connection attempt goes to the endpoint of the description the pairing holds at that moment
-ConnectsToLatest == \A o \in out : o.k = "tcp" => <<o.x, o.y>> = EndpointOf(pdesc)
+ConnectsToLatest == \A o \in out : o[1] = "tcp" => <<o[2], o[3]>> = EndpointOf(pdesc)
 =============================================================================
